@@ -35,6 +35,11 @@ def units():  # noqa: F811
     ]
 
 
+def replay_scope(unit, obl):
+    """the native replay of this property searches per unit, not per obligation: run it once per unit"""
+    return "unit"
+
+
 def replay(unit, obl):
     from checks import update_native
     return update_native.replay(unit, obl)
